@@ -127,9 +127,11 @@ Definition rlb_flush (m : mode) (b : rlbuilder) : res rlbuilder :=
     let* len1 := usub m (snd (b_run b)) 1 in
     let* c1 := rl_code_len m gap in
     let* c2 := rl_code_len m len1 in
-    let* units_needed := uadd m c1 c2 in
-    let* have := uadd m (ilen (b_data b)) units_needed in
-    let* room := umul m (rlb_blocks b) rl_BLOCK_SIZE in
+    (* counts of code units / blocks: [data] really holds that many units, so they are bounded by real
+       memory and exact *)
+    let units_needed := c1 + c2 in
+    let have := ilen (b_data b) + units_needed in
+    let room := rlb_blocks b * rl_BLOCK_SIZE in
     let* (samples, data) :=
       if room <? have then
         let* d := iv_resize (b_data b) room 0 in
